@@ -1348,11 +1348,11 @@ def run(ctx: Ctx):
                 ctx.count("decimal sampling rate")
                 one_text(ctx, drv, wd, fmt, text, rate, case, m)
         # the abstract RINEX 3 file of the file-level theorem (Spec/Rinex3ObsFile.lean): render, wf, theorem instance, expected
-        for i in range(ctx.budget(120, 1000)):
+        for i in range(ctx.budget(120, 400)):
             m = gen_file3_model(rng, ctx.thorough)
             one_file3(ctx, drv, wd, m, pick_rate(rng, m), i)
         # the abstract RINEX 2 file (Spec/Rinex2ObsFile.lean): render2, wf, instance, expected2
-        for i in range(ctx.budget(100, 800)):
+        for i in range(ctx.budget(100, 400)):
             m = gen_file2_model(rng, ctx.thorough)
             one_file2(ctx, drv, wd, m, pick_rate(rng, m), i)
     finally:
